@@ -87,7 +87,11 @@ impl TcpStream {
 
             let syn = Protocol::Tcp(Segment::Syn(Syn { ack }));
             if !is_same(pair.local, pair.remote) {
-                world.send_message(pair.local, pair.remote, syn)?;
+                if let Err(e) = world.send_message(pair.local, pair.remote, syn) {
+                    // no route to the destination: give the socket entry back
+                    world.current_host_mut().tcp.reset_stream(pair);
+                    return Err(e);
+                }
             } else {
                 send_loopback(pair.local, pair.remote, syn);
             };
@@ -95,9 +99,17 @@ impl TcpStream {
             Ok::<_, Error>((pair, rx, bidi))
         })?;
 
+        // Until the handshake completes the socket entry registered above is
+        // owned by this future alone. If the connect is refused, or the future
+        // is dropped (a timeout, a `select!` that lost, a crash), the entry —
+        // and the ephemeral port it pins — must go away again.
+        let pending = PendingConnect { pair, armed: true };
+
         syn_ack.await.map_err(|_| {
             io::Error::new(io::ErrorKind::ConnectionRefused, pair.remote.to_string())
         })?;
+
+        pending.disarm();
 
         tracing::trace!(target: TRACING_TARGET, src = ?pair.remote, dst = ?pair.local, protocol = %"TCP SYN-ACK", "Recv");
 
@@ -191,6 +203,41 @@ impl TcpStream {
     /// available.
     pub fn poll_peek(&mut self, cx: &mut Context<'_>, buf: &mut ReadBuf) -> Poll<Result<usize>> {
         self.read_half.poll_peek(cx, buf)
+    }
+}
+
+/// Client-side socket entry of a connect whose handshake has not completed.
+/// Dropping it while armed removes the entry and resets the peer, in case the
+/// listener accepted the request at the very moment the connector gave up.
+struct PendingConnect {
+    pair: SocketPair,
+    armed: bool,
+}
+
+impl PendingConnect {
+    fn disarm(mut self) {
+        self.armed = false;
+    }
+}
+
+impl Drop for PendingConnect {
+    fn drop(&mut self) {
+        if !self.armed {
+            return;
+        }
+        let pair = self.pair;
+        World::current_if_set(|world| {
+            if world.current.is_none() {
+                return;
+            }
+            world.current_host_mut().tcp.reset_stream(pair);
+            let message = Protocol::Tcp(Segment::Rst);
+            if is_same(pair.local, pair.remote) {
+                send_loopback(pair.local, pair.remote, message);
+            } else {
+                let _ = world.send_message(pair.local, pair.remote, message);
+            }
+        })
     }
 }
 
